@@ -104,6 +104,7 @@ func c06(args []string) error {
 			for k, tv := range ro.table {
 				if math.Float64bits(tv) == math.Float64bits(z) {
 					e["z"] = []interface{}{"n", k}
+					break
 				}
 			}
 			if math.IsNaN(z) {
